@@ -74,6 +74,103 @@ pub fn scratch_dir() -> PathBuf {
     base
 }
 
+/// Executes a plan in a fresh child process (`simw exec1`, plan on stdin) and
+/// merges the child's statistics; used by worlds whose code under test keeps
+/// process-wide state.
+pub fn execute_in_child(plan: &Plan, stats: &mut Stats) -> Outcome {
+    let exe = std::env::current_exe().expect("current_exe");
+    let mut child = Command::new(exe)
+        .arg("exec1")
+        .stdin(Stdio::piped())
+        .stdout(Stdio::piped())
+        .stderr(Stdio::piped())
+        .spawn()
+        .expect("harness: cannot spawn exec1");
+    child
+        .stdin
+        .take()
+        .unwrap()
+        .write_all(plan.to_json().to_string().as_bytes())
+        .expect("harness: cannot send plan");
+    let out = child.wait_with_output().expect("harness: wait exec1");
+    if out.status.code() == Some(2) {
+        eprintln!("harness error in exec1: {}", String::from_utf8_lossy(&out.stderr));
+        std::process::exit(2);
+    }
+    let text = String::from_utf8_lossy(&out.stdout).to_string();
+    let Some(line) = text.lines().find(|l| l.starts_with('{')) else {
+        // The child died: that is a finding about the code under test.
+        let crash_prop = crate::crash_property(plan.world);
+        return Outcome {
+            violations: vec![Violation {
+                prop: crash_prop,
+                inv: format!("{}.process_died", crash_prop),
+                detail: format!("child process died ({:?}): {}", out.status, String::from_utf8_lossy(&out.stderr).lines().take(6).collect::<Vec<_>>().join(" | ")),
+                at_op: usize::MAX,
+                key: String::new(),
+            }],
+            log_hash: 0,
+            nontrivial: false,
+        };
+    };
+    let j = J::parse(line).expect("harness: bad exec1 json");
+    if let Some(J::Obj(m)) = j.get("counters") {
+        for (k, v) in m {
+            stats.add(k, v.as_u64().unwrap_or(0));
+        }
+    }
+    if let Some(arr) = j.get("states").and_then(|x| x.as_arr()) {
+        for s in arr {
+            stats.state(s.as_u64().unwrap_or(0));
+        }
+    }
+    stats.ops_executed += j.get("ops").and_then(|x| x.as_u64()).unwrap_or(0);
+    stats.sim_time_ms += j.get("sim_ms").and_then(|x| x.as_u64()).unwrap_or(0);
+    let violations = j
+        .get("violations")
+        .and_then(|x| x.as_arr())
+        .map(|a| a.iter().map(parse_violation).collect())
+        .unwrap_or_default();
+    Outcome {
+        violations,
+        log_hash: j.get("log_hash").and_then(|x| x.as_u64()).unwrap_or(0),
+        nontrivial: matches!(j.get("nontrivial"), Some(J::Bool(true))),
+    }
+}
+
+/// The `exec1` sub-command: one plan from stdin, one JSON line on stdout.
+pub fn exec1_main() {
+    install_panic_hook();
+    let mut text = String::new();
+    std::io::Read::read_to_string(&mut std::io::stdin(), &mut text).expect("harness: stdin");
+    let j = J::parse(&text).expect("harness: bad plan json");
+    let plan = Plan::from_json(&j, crate::WORLDS).expect("harness: bad plan");
+    let world = crate::WORLDS.iter().find(|w| w.name() == plan.world).unwrap();
+    let mut stats = Stats::default();
+    let outcome = world.execute(&plan, &mut stats);
+    let mut counters = J::obj();
+    for (k, v) in &stats.counters {
+        counters.set(k, J::u(*v));
+    }
+    let out = J::obj()
+        .with("violations", J::Arr(outcome.violations.iter().map(violation_json).collect()))
+        .with("log_hash", J::u(outcome.log_hash))
+        .with("nontrivial", J::Bool(outcome.nontrivial))
+        .with("counters", counters)
+        .with("states", J::Arr(stats.states.iter().map(|s| J::u(*s)).collect()))
+        .with("ops", J::u(stats.ops_executed))
+        .with("sim_ms", J::u(stats.sim_time_ms));
+    println!("{}", out.to_string());
+}
+
+pub fn execute_world(world: &'static dyn World, plan: &Plan, stats: &mut Stats) -> Outcome {
+    if world.process_per_run() {
+        execute_in_child(plan, stats)
+    } else {
+        world.execute(plan, stats)
+    }
+}
+
 pub struct Job {
     pub world: &'static dyn World,
     pub ask: Ask,
@@ -153,7 +250,7 @@ pub fn worker_main(
             use std::os::unix::fs::FileExt;
             let _ = progress.write_at(&index.to_le_bytes(), 0);
         }
-        let outcome = world.execute(&plan, &mut stats);
+        let outcome = execute_world(world, &plan, &mut stats);
         stats.runs += 1;
         done += 1;
         batch.u64(index);
@@ -179,7 +276,7 @@ pub fn worker_main(
                 let res = minimise(
                     &plan,
                     v,
-                    |cand| world.execute(cand, &mut scratch).violations,
+                    |cand| execute_world(world, cand, &mut scratch).violations,
                     Duration::from_secs(20),
                     2000,
                 );
